@@ -49,6 +49,7 @@ type PropSpec struct {
 	Trusted   []string
 	Explain   string
 	Technique string
+	OnlyContracted bool // consider only functions that have a contract (the others are listed as not under contract)
 }
 
 type CheckCtx struct {
@@ -63,6 +64,7 @@ type CheckCtx struct {
 	Bounded []BoundedRun
 	Notes  []string
 	ExtraFindings []Finding
+	NotUnderContract []string
 	Timeout int
 	t0     time.Time
 	Data   map[string]any
@@ -233,6 +235,10 @@ func (c *CheckCtx) run(verbose bool) int {
 		u := eng.units[key]
 		fc := eng.contracts[key]
 		if fc != nil && (fc.Assumed || fc.Opaque) {
+			continue
+		}
+		if fc == nil && spec.OnlyContracted {
+			c.NotUnderContract = append(c.NotUnderContract, key)
 			continue
 		}
 		res, vc := eng.generate(u)
@@ -487,6 +493,7 @@ func (c *CheckCtx) run(verbose bool) int {
 		"vacuity":      map[string]any{"probes": nProbe, "probes_not_provable": nProbeOK},
 		"explanation":  spec.Explain,
 		"notes":        nonNil(c.Notes),
+		"functions_not_under_contract": nonNil(c.NotUnderContract),
 		"integers":     "int is mathematical (A-INT); sized integers are range-checked (ovf obligations) and conversions wrap exactly",
 	}
 	if evals > 0 {
